@@ -39,10 +39,13 @@ def one_graph(args):
         parent = {1: 0}
         path = {1: ''}
         names = ['a', 'b', 'c d', 'e', 'ż', 'g']
+        # sometimes one directory is hidden (dot name): it and everything reached only through it is not walked
+        # - by none of the three walkers - whatever links it holds
+        hidden = rng.choice(ids[1:]) if len(ids) > 1 and rng.random() < 0.3 else None
         for d in ids[1:]:
             p = rng.choice([x for x in ids if x < d])
             parent[d] = p
-            path[d] = (path[p] + '/' if path[p] else '') + names[d - 1]
+            path[d] = (path[p] + '/' if path[p] else '') + ('.h%d' % d if d == hidden else names[d - 1])
         foreign = list(range(n + 1, n + nf + 1))
         real = {}
         for d in ids:
@@ -79,6 +82,13 @@ def one_graph(args):
             os.symlink(real[b], lp)
             links.append((a, b, lname))
             edges.add((a, b))
+        def under_hidden(d):
+            x = d
+            while x:
+                if x == hidden:
+                    return True
+                x = parent.get(x, 0)
+            return False
         # reachability through a link (for the IGNORE restriction)
         def logical_paths_unique(src):
             # src must be a main-tree dir that no link can reach (neither it nor an ancestor of it)
@@ -108,7 +118,12 @@ def one_graph(args):
                 if sum(1 for l in links if (l[0], l[1]) == ignored[:2]) + (1 if parent.get(ignored[1]) == ignored[0] else 0) > 1:
                     ignored = None
         eff_edges = set(edges)
-        ents = [fm.make_entry('DATA', (path[d] + '/' if path[d] else '') + 'f', b'data%d' % d, ['SHA1']) for d in ids]
+
+        if hidden and not any((l[0], l[1]) == (parent[hidden], hidden) for l in links):
+            # (a link from its parent reaches it under another, visible name)
+            eff_edges.discard((parent[hidden], hidden))
+        ents = [fm.make_entry('DATA', (path[d] + '/' if path[d] else '') + 'f', b'data%d' % d, ['SHA1']) for d in ids
+                if not under_hidden(d)]
         if ignored:
             eff_edges.discard(ignored[:2])
             ents = [e for e in ents if not (e['path'] == ignored[2] + '/f' or e['path'].startswith(ignored[2] + '/'))]
@@ -125,7 +140,8 @@ def one_graph(args):
             if not os.path.lexists(lp):
                 os.symlink(os.path.join(shm, 'ff.txt'), lp)
                 rel = (path[a] + '/' if path[a] else '') + 'ffl'
-                listed = rng.random() < 0.5
+                # (not listed when it lies in the hidden directory: a LISTED file is looked at wherever it is)
+                listed = rng.random() < 0.5 and not under_hidden(a)
                 under_ignored = ignored is not None and (rel == ignored[2] or rel.startswith(ignored[2] + '/'))
                 if listed and not under_ignored:
                     ents.append(fm.make_entry('DATA', rel, b'foreign file', ['SHA1']))
@@ -154,7 +170,7 @@ def one_graph(args):
         with open(os.path.join(root, 'Manifest'), 'wb') as f:
             f.write(fm.manifest_bytes(ents))
         base = {'dirs': alld, 'edges': [list(e) for e in sorted(eff_edges)], 'start': 1, 'foreign': foreign,
-                'meta': {'seed': seed, 'idx': idx, 'links': links, 'ignored': ignored, 'beyond': beyond, 'flink': flink, 'paths': path}}
+                'meta': {'seed': seed, 'idx': idx, 'links': links, 'ignored': ignored, 'beyond': beyond, 'flink': flink, 'hidden': hidden, 'paths': path}}
         old = signal.signal(signal.SIGALRM, _alarm)
         try:
             for op in ('verify', 'update', 'scan'):
